@@ -14,6 +14,7 @@ struct Relay {
 	int maxans = 0; std::string big = "drop";        // drop|servfail|tc
 	std::string edns = "keep";                       // keep|strip|drop
 	bool shuffle = false, reencode = false, idrewrite = false, ttl_rewrite = false;
+	bool ref_reencode = false;                        // answers re-encoded by the reference encoder (C09: reference encoder -> real client)
 	bool bypass = false;
 	uint64_t nq = 0, na = 0;
 	std::map<std::pair<std::string, uint16_t>, uint16_t> idmap;
